@@ -1,5 +1,7 @@
 # -*- coding: utf-8 -*-
 
+import copy
+
 from vsg import parser, token
 from vsg.vhdlFile import utils
 
@@ -56,6 +58,8 @@ def get_toi_parameters(oToi):
 
 
 def insert_token(lTokens, index, oToken):
+    # the token handed in may be a template object that a rule keeps for its whole life time: insert a copy
+    oToken = copy.copy(oToken)
     try:
         oToken = update_code_tags(lTokens[index], oToken)
     except TypeError:
